@@ -130,7 +130,7 @@ func (p *part) refJournals() {
 	r := p.newRig()
 	for _, cl := range p.daClients {
 		for _, scopes := range scopeSets {
-			if cl == "norefresh" || cl == "ghost" || cl == "web-nocred" {
+			if cl == "norefresh" || cl == "ghost" || cl == "web-nocred" || strings.Contains(cl, "+") {
 				continue
 			}
 			if pan := engine.Bubble(p.c.T, 0, func() {
@@ -191,7 +191,7 @@ func (p *part) ops(s S) []string {
 	if len(s.Flows) < p.maxFlows {
 		for _, cl := range p.daClients {
 			for i := range scopeSets {
-				if i > 0 && (cl == "norefresh" || cl == "ghost" || cl == "web-nocred") {
+				if i > 0 && (cl == "norefresh" || cl == "ghost" || cl == "web-nocred" || strings.Contains(cl, "+")) {
 					continue
 				}
 				for _, ch := range p.channels() {
@@ -545,12 +545,17 @@ func (p *part) devAuth(r *rig.Rig, s *S, who, scopes, ch string) engine.Result {
 	form := url.Values{"scope": {scopes}}
 	auth := ""
 	client := who
-	switch who {
-	case "web-nocred": // confidential client that only names itself
+	named := "" // "A+B": A authenticates and sends client_id=B; the flow is A's
+	switch {
+	case who == "web-nocred": // confidential client that only names itself
 		client = "web"
 		form.Set("client_id", "web")
-	case "ghost":
+	case who == "ghost":
 		form.Set("client_id", "ghost")
+	case strings.Contains(who, "+"):
+		client, named, _ = strings.Cut(who, "+")
+		auth = authFor(r, client, form)
+		form.Set("client_id", named)
 	default:
 		auth = authFor(r, who, form)
 	}
@@ -579,10 +584,13 @@ func (p *part) devAuth(r *rig.Rig, s *S, who, scopes, ch string) engine.Result {
 	if who == "web-nocred" {
 		rule = "da-unauthenticated-confidential" + cs
 	}
+	if named != "" {
+		rule = "da-authenticated-names-other" + cs
+	}
 	if !served {
 		// the statement says nothing about who may *start* a flow for a known client without credentials,
-		// nor obliges the provider to read parameters from the URL query: Either
-		if who == "web-nocred" || ch != "b" {
+		// nor obliges the provider to read parameters from the URL query or to accept a contradicting client_id: Either
+		if who == "web-nocred" || ch != "b" || named != "" {
 			if len(s.St.Devices) != nDev {
 				class := strings.TrimPrefix(cs, "/")
 				if who == "web-nocred" {
@@ -620,6 +628,10 @@ func (p *part) devAuth(r *rig.Rig, s *S, who, scopes, ch string) engine.Result {
 	if ch == "q" && stored == "" && d.UserCode == uc && d.St.ClientID == client {
 		// a provider that does not read the scope from the URL query started a flow without scopes: its business
 		scopes, o = "", o+"-scope-in-query-ignored"
+	}
+	if named != "" && d.St.ClientID != client {
+		return engine.Bad(rule, "devauth-for-named", "C16/devauth-bound-to-other-client/"+rn+"/authenticated-names-other",
+			fmt.Sprintf("the request is authenticated as %s and carries client_id=%s: the flow is stored for %s", client, named, d.St.ClientID))
 	}
 	if d.UserCode != uc || d.St.ClientID != client || stored != scopes {
 		return bad("stored-record", fmt.Sprintf("stored record client=%s scopes=%v user code match=%v; request client=%s scopes=%q", d.St.ClientID, d.St.Scopes, d.UserCode == uc, client, scopes))
@@ -831,7 +843,7 @@ func TestCheck(t *testing.T) {
 			continue
 		}
 		p := &part{c: c, router: router,
-			daClients: engine.Pick(c, []string{"web", "pub", "norefresh", "ghost"}, []string{"web", "pub", "webjwt", "jwt", "norefresh", "ghost", "web-nocred"}),
+			daClients: engine.Pick(c, []string{"web", "pub", "norefresh", "ghost", "web+pub"}, []string{"web", "pub", "webjwt", "jwt", "norefresh", "ghost", "web-nocred", "web+pub", "web+ghost", "web+norefresh", "jwt+pub", "jwt+web"}),
 			maxFlows:  2, users: []string{"u1", "u2"},
 			near: c.Thorough(), slow: true, extraWho: c.Thorough(),
 			// quick: one storage fault per history here; thorough: the larger client alphabet here without
@@ -865,7 +877,7 @@ func TestCheck(t *testing.T) {
 			if !want("fault-" + rig.Routers[router]) {
 				continue
 			}
-			p := &part{c: c, router: router, daClients: []string{"web", "pub", "norefresh", "ghost"}, maxFlows: 2, users: []string{"u1", "u2"},
+			p := &part{c: c, router: router, daClients: []string{"web", "pub", "norefresh", "ghost", "web+pub"}, maxFlows: 2, users: []string{"u1", "u2"},
 				slow: true, extraWho: true, chans: chans, maxFaults: 2, faultKinds: []string{"err", "deadline"}}
 			p.refJournals()
 			engine.RunE2(c, engine.E2[S]{
@@ -877,6 +889,9 @@ func TestCheck(t *testing.T) {
 	if want("callers") {
 		runCallers(c)
 	}
+	if want("starters") {
+		runStarters(c)
+	}
 	if want("format") {
 		runFormat(c)
 	}
@@ -885,5 +900,8 @@ func TestCheck(t *testing.T) {
 	}
 	if want("seeds") {
 		runSeeds(c)
+	}
+	if want("collide") {
+		runCollide(c)
 	}
 }
